@@ -32,4 +32,69 @@ for a in vs:
         for o in ops:
             out[o].append(bool(getattr(A, o)(B)))
         out['newer'].append(bool(A.newer(dawgie.VERSION(*b))))
-result({'n': len(vs), 'tables': out, 'domain': dom})
+
+
+# ---- the classes that carry a version in an engine --------------------------
+def carriers():
+    def ver(o, v):
+        o._version_ = dawgie.VERSION(*v)
+        return o
+
+    class Alg(dawgie.Algorithm):
+        def name(self):
+            return 'alg'
+
+    class Ana(dawgie.Analyzer):
+        def name(self):
+            return 'ana'
+
+    class Reg(dawgie.Regression):
+        def name(self):
+            return 'reg'
+
+    class Val(dawgie.Value):
+        def features(self):
+            return []
+
+    class SV(dawgie.StateVector):
+        def name(self):
+            return 'sv'
+
+        def view(self, *_a):
+            return None
+
+    def sv(contents):
+        def mk(v):
+            s = SV()
+            s.update(contents(v))
+            return ver(s, v)
+        return mk
+
+    return {
+        'Algorithm': lambda v: ver(Alg(), v), 'Analyzer': lambda v: ver(Ana(), v),
+        'Regression': lambda v: ver(Reg(), v), 'Value': lambda v: ver(Val(), v),
+        'StateVector(empty)': sv(lambda v: {}),
+        'StateVector(same contents)': sv(lambda v: {'k': 1}),
+        'StateVector(contents differ with the version)': sv(lambda v: {'k': v}),
+        'StateVector(contents differ against the version)': sv(lambda v: {'k': sum(v) % 2}),
+    }
+
+
+cdom = P.get('carrier_domain', [0, 1, 2])
+cvs = [tuple(t) for t in itertools.product(cdom, repeat=3)]
+ctab = {}
+for cname, mk in carriers().items():
+    t = {o: [] for o in ops}
+    t['newer'] = []
+    try:
+        for a in cvs:
+            A = mk(a)
+            for b in cvs:
+                B = mk(b)
+                for o in ops:
+                    t[o].append(bool(getattr(A, o)(B)))
+                t['newer'].append(bool(A.newer(dawgie.VERSION(*b))))
+        ctab[cname] = t
+    except Exception as e:  # pylint: disable=broad-except
+        ctab[cname] = {'exc': type(e).__name__ + ': ' + str(e)[:200]}
+result({'n': len(vs), 'tables': out, 'domain': dom, 'carriers': ctab, 'carrier_versions': cvs})
